@@ -110,7 +110,7 @@ def epi (i m : Nat) (s : LSt) : LSt :=
 /-- the body of an emission: the accumulator's strategy over the snapshot, or the turns in order -/
 def body (f : Nat) (P : Prog) (s : LSt) (fl : Flavour) (i : Nat) (snap : List Nat) (arg : Nat) (strat : Strat) :
     Option (LSt × Outcome × Nat) :=
-  if fl.isAcc then runStrat f P s i snap arg strat else turns f P s i snap arg 0
+  if fl.isAcc then runStrat f P s i snap arg (strat.forFlavour fl) else turns f P s i snap arg 0
 
 theorem emitSig_eq (f : Nat) (P : Prog) (s : LSt) (fl : Flavour) (i arg : Nat) (strat : Strat) (g : LSig)
     (hg : aget s.sigs i = some g) (hk : (s.k2 && !fl.isAcc && g.cells.isEmpty) = false) :
